@@ -325,6 +325,9 @@ type sim struct {
 	allOps     map[string]map[opID]opRec // every operation that exists, per key
 	opEvents   map[opID]map[string]bool  // lifecycle notes used to explain a divergence
 	skipped    map[opID]map[int]bool     // recovery of node idx skipped this op
+	breakAfter int                       // > 0: armed for the node that is starting (see Op.BreakAfter)
+	cutRec     *cutInfo                  // the stream that was cut during the current start
+	failedRec  *recCtl                   // recovery bookkeeping of the last start that failed
 	synCtr     [2]int64
 	nextMarker int
 	nextVal    int
@@ -523,6 +526,7 @@ func (s *sim) openNode(n *nodeSim, order []int) error {
 		if r.db != nil {
 			_ = r.db.Close()
 		}
+		s.failedRec = ctl
 		return r.err
 	}
 	n.db, n.h, n.up = r.db, h, true
@@ -618,6 +622,33 @@ func (s *sim) onLeaseSend(from *nodeSim, target address.Address, req kv.TxReques
 	s.curFwd = append(s.curFwd, f)
 	s.mu.Unlock()
 	return f.err
+}
+
+type cutInfo struct {
+	peer      *nodeSim
+	delivered []kv.Operation
+	withheld  []kv.Operation
+}
+
+// cutStream decides, before a response of r is handed out, whether the stream breaks here.
+func (s *sim) cutStream(r *recStream) bool {
+	s.mu.Lock()
+	defer s.mu.Unlock()
+	if s.breakAfter <= 0 || s.cutRec != nil || s.rec == nil || s.rec.node != r.from || r.handed < s.breakAfter-1 {
+		return false
+	}
+	c := &cutInfo{peer: r.peer}
+	all := s.rec.streamed[r.peer.idx]
+	n := 0
+	for _, resp := range r.resp {
+		n += len(resp.Operations)
+	}
+	if n > len(all) {
+		n = len(all)
+	}
+	c.delivered, c.withheld = all[:len(all)-n], all[len(all)-n:]
+	s.cutRec = c
+	return true
 }
 
 func (s *sim) onRecoveryStream(ctx context.Context, from *nodeSim, target address.Address) (kv.RecoveryTransportClientStream, error) {
@@ -1546,7 +1577,7 @@ func (s *sim) stop(n *nodeSim, step string) error {
 	return nil
 }
 
-func (s *sim) start(n *nodeSim, order []int, step string) error {
+func (s *sim) start(n *nodeSim, order []int, step string, breakAfter int) error {
 	if n.up {
 		return nil
 	}
@@ -1573,7 +1604,59 @@ func (s *sim) start(n *nodeSim, order []int, step string) error {
 			peerHas[p.idx][k] = st
 		}
 	}
-	if err := s.openNode(n, order); err != nil {
+	s.mu.Lock()
+	s.breakAfter, s.cutRec = breakAfter, nil
+	s.mu.Unlock()
+	oerr := s.openNode(n, order)
+	s.mu.Lock()
+	cut := s.cutRec
+	s.breakAfter, s.cutRec = 0, nil
+	s.mu.Unlock()
+	if cut != nil {
+		if oerr != nil && !errors.Is(oerr, errTimeout) {
+			// the start was refused: nothing of the broken stream may have been applied; the
+			// node is started again, this time with healthy streams
+			s.event("%s: %s refused to start on a recovery stream from %s that broke after %d operations (%d withheld): %v", step, n.label(), cut.peer.label(), len(cut.delivered), len(cut.withheld), oerr)
+			s.rep.Class("start-refused:recovery-stream-broke")
+			// peers are recovered one after the other, each in a transaction of its own: what a
+			// complete stream of another peer carried may be in the engine already
+			if fr := s.failedRec; fr != nil && fr.node == n {
+				for _, ops := range fr.streamed {
+					for _, op := range ops {
+						if strings.HasPrefix(string(op.Key), markerPrefix) {
+							continue
+						}
+						if st, err := readStored(s.ctx, n.engine, string(op.Key)); err == nil && st.HasDig && st.ID == recOf(op).ID {
+							s.receive(n, recOf(op))
+							s.event("   %s was applied before the start was refused", recOf(op))
+						}
+					}
+				}
+			}
+			oerr = s.openNode(n, order)
+		} else if oerr == nil {
+			// started although the stream broke: is a part of it applied, with the withheld
+			// rest now below what the node will ask for next time?
+			var top int64
+			for _, op := range cut.delivered {
+				if st, err := readStored(s.ctx, n.engine, string(op.Key)); err == nil && st.HasDig && st.ID == recOf(op).ID && int64(op.Version) > top {
+					top = int64(op.Version)
+				}
+			}
+			for _, op := range cut.withheld {
+				if strings.HasPrefix(string(op.Key), markerPrefix) {
+					continue
+				}
+				st, err := readStored(s.ctx, n.engine, string(op.Key))
+				id := recOf(op).ID
+				if err == nil && (!st.HasDig || newer(id, st.ID)) && int64(op.Version) < top {
+					return kit.Fail("recovery-applied-truncated-stream", "%s: the recovery stream from %s to %s broke with a transport error after %d of %d operations; %s started nevertheless, holds operations of that stream up to version %d and lacks %s, which it will not ask for again (below its new recovery mark)", step, cut.peer.label(), n.label(), len(cut.delivered), len(cut.delivered)+len(cut.withheld), n.label(), top, recOf(op))
+				}
+			}
+			s.rep.Class("started-on-broken-recovery-stream")
+		}
+	}
+	if err := oerr; err != nil {
 		if errors.Is(err, errTimeout) {
 			return err
 		}
